@@ -149,6 +149,8 @@ def c20_rf21(run):
     run.min_instances('RF59', 19)
     rf_mir2c.rf60(run)
     run.min_instances('RF60', 2)
+    rf_mir2c.rf61(run)
+    run.min_instances('RF61', 40)
     run.min_instances('RF21', 8)
     rf_vocab.rf37(run, 'mir2c', ('MIR_module2c',))
     run.min_instances('RF37', 3)
@@ -201,6 +203,8 @@ def c12_rf13(run):
     run.control('RF13', 'rf13_control.c', got == ['callback', 'destination', 'index'])
     rf_bounds.rf13w(run)
     run.min_instances('RF13w', 257)
+    rf_bounds.rf13h(run)
+    run.min_instances('RF13h', 3)
     rf_bounds.rf13_exits(run)
     run.min_instances('RF13e', 8)
     rf_bounds.rf13c(run)
